@@ -48,6 +48,7 @@ theorem fTrunc_spec :
   have hne : ¬ x.repr.exp ≥ 0 := by omega
   have hD := pointUnit_pos B hB x.repr
   unfold fTrunc
+  try simp only [shlDigits_eq, shrDigits_eq]
   simp only [hne, if_false]
   by_cases hsm : smallerThanOne dub x.repr = true
   · simp only [hsm, if_true]
@@ -135,6 +136,7 @@ theorem fToInt_spec (m : Mode) :
     (fToInt B m c dub x).2 ≠ none := by
   have hne : ¬ x.repr.exp ≥ 0 := by omega
   unfold fToInt
+  try simp only [shlDigits_eq, shrDigits_eq]
   simp only [hne, if_false]
   exact ⟨roundVia_spec B hB m c hc dub hdub x he, by simp⟩
 
@@ -144,6 +146,7 @@ end
 theorem fToInt_int (B : Nat) (m : Mode) (c : Coarse) (dub : Int → Nat) (x : FBigM) (he : 0 ≤ x.repr.exp) :
     fToInt B m c dub x = (x.repr.signif * ((B ^ x.repr.exp.toNat : Nat) : Int), none) := by
   unfold fToInt
+  try simp only [shlDigits_eq, shrDigits_eq]
   have : x.repr.exp ≥ 0 := he
   simp [this]
 
@@ -160,6 +163,7 @@ theorem reprToInt_spec (B : Nat) (hB : 2 ≤ B) (dub : Int → Nat) (hdub : DubS
   have hne : ¬ r.exp ≥ 0 := by omega
   have hD := pointUnit_pos B hB r
   unfold reprToInt
+  try simp only [shlDigits_eq, shrDigits_eq]
   simp only [hne, if_false]
   by_cases hsm : smallerThanOne dub r = true
   · simp only [hsm, if_true, and_true]
@@ -175,7 +179,8 @@ theorem reprToInt_spec (B : Nat) (hB : 2 ≤ B) (dub : Int → Nat) (hdub : DubS
 
 theorem fSplit_eq (B : Nat) (dub : Int → Nat) (x : FBigM) :
     fSplitAtPoint B dub x = (fTrunc B dub x, fFract B dub x) := by
-  unfold fSplitAtPoint fTrunc fFract splitAtPointInternal shrDigits
+  unfold fSplitAtPoint fTrunc fFract splitAtPointInternal
+  try simp only [shlDigits_eq, shrDigits_eq]
   by_cases he : x.repr.exp ≥ 0
   · simp [he]
   · simp only [he, if_false]
@@ -188,7 +193,8 @@ theorem fSplit_eq (B : Nat) (dub : Int → Nat) (x : FBigM) :
 theorem trunc_add_fract (B : Nat) (hB : 2 ≤ B) (dub : Int → Nat) (x : FBigM) :
     (fTrunc B dub x).repr.toRat B + (fFract B dub x).repr.toRat B = x.repr.toRat B := by
   have hB0 : 0 < B := by omega
-  unfold fTrunc fFract splitAtPointInternal shrDigits
+  unfold fTrunc fFract splitAtPointInternal
+  try simp only [shlDigits_eq, shrDigits_eq]
   by_cases he : x.repr.exp ≥ 0
   · simp [he, FBigM.zero, FRepr.toRat]
   · simp only [he, if_false]
